@@ -42,7 +42,7 @@ Definition s := false.
 Definition join_sched (compress : bool) : list bool :=
   if compress then [b;b;s;s;s;s;b;b;b;s;s;b;b;s] else [b;b;s;s;s;b;b;s;s;b;b;s].
 
-Ltac crunch H1 H2 := repeat (cbn; unfold b_recv, s_recv; cbn; rewrite ?Z.eqb_refl, ?H1, ?H2).
+Ltac crunch H1 H2 := do 16 (cbn; unfold b_recv, s_recv; cbn; rewrite ?Z.eqb_refl, ?H1, ?H2).
 
 Lemma join_reference bc sc :
   sc_cfg sc = CfgFinishOnly -> accepts sc (bc_name bc) ->
